@@ -94,9 +94,11 @@ def restored(p, effs):
     first = p.events.index(effs[0][0])
     touched = set()
     for e_, _, flds in effs:
-        touched |= set(f for f in flds if f in OPTION_LEVEL and not (f == 'comment' and e_.kind == 'call'))
-        # (the annotation: a callee reaches it only through the dropping of defaults, which keeps it - R10.4; the field-name
-        # based MOD summary cannot tell, an explicit store to it counts)
+        touched |= set(f for f in flds if f in OPTION_LEVEL and not (f == 'comment' and e_.kind == 'call' and
+                                                                     (e_.name == 'cfg_setopt' or not any(sym.root_of(a) == ('p', 'opt') and a[0] == 'p' for a in e_.args))))
+        # (the annotation: cfg_setopt() reaches it only through the dropping of defaults, which keeps it - R10.4; the field-name
+        # based MOD summary cannot tell; a callee that is not handed the option itself - the release of a section held in a value -
+        # writes the member of that name in another object.  An explicit store, or the release routine called on the option, counts)
         if flds & {'value', 'values[]', 'string', 'section', 'number', 'fpnumber', 'boolean'}:
             touched.add('values')
     # saved copies: a by-value copy into a local before the first effect, or loads stored in locals
@@ -158,6 +160,18 @@ def restored(p, effs):
             missing.append(f)
     if missing:
         return (False, 'the revert does not restore %s' % ', '.join(missing))
+    if 'values' in touched and calls_:
+        # what the failed update built is released before the old vector is put back (or was shown not to exist)
+        back = [k for k, e in enumerate(p.events) if k >= last and e.kind == 'store' and e.addr[0] == 'fld' and e.addr[3] == 'values' and sym.root_of(e.addr)[0] == 'p' and e.val != sym.C0]
+        if back:
+            seg = p.events[last:back[-1]]
+            released = any(e.kind == 'call' and ((e.name == 'cfg_free_value' and e.args and e.args[0][0] == 'p') or
+                                                 (e.name == 'free' and e.args and sym.mentions(e.args[0], lambda v: v[0] == 'fld' and len(v) > 3 and v[3] == 'values' and sym.root_of(v)[0] == 'p')))
+                           for e in seg)
+            nothing = any((lambda na: na is not None and na[1] is True and na[0][0] == 'ld' and na[0][1][0] == 'fld' and na[0][1][3] == 'values' and sym.root_of(na[0][1])[0] == 'p')
+                          (fp.is_null_assumption(cn, t)) for cn, t, _ in p.assume)
+            if not released and not nothing:
+                return (False, 'the revert puts the old value vector back without having released the one the failed update built (a slot array allocated before the failure is lost)')
     if 'flags' in touched:
         # the restored bits must cover RESET and MODIFIED
         okmask = False
